@@ -200,11 +200,11 @@ func loadWorld(prop string, extraPkgs []string) (*World, error) {
 			}
 		}
 		for _, s := range sf.SpecFuncs {
-			if _, dup := w.specFuncs[s.Name]; dup {
+			if _, dup := w.specFuncs[pp+"::"+s.Name]; dup {
 				return nil, fmt.Errorf("%s: duplicate spec function %s", f, s.Name)
 			}
-			w.specFuncs[s.Name] = s
-			w.specFuncPkg[s.Name] = w.typesPkgs[pp]
+			w.specFuncs[pp+"::"+s.Name] = s
+			w.specFuncPkg[pp+"::"+s.Name] = w.typesPkgs[pp]
 		}
 		for _, l := range sf.Lemmas {
 			w.lemmas = append(w.lemmas, l)
@@ -339,4 +339,26 @@ func (w *World) findFunction(fs *FuncSpec) *ssa.Function {
 type axiomIn struct {
 	c   Clause
 	pkg string
+}
+
+// lookupSpecFunc: spec functions are scoped by the package of their contract file.
+func (w *World) lookupSpecFunc(name string, ctx *types.Package) (*SpecFunc, *types.Package) {
+	if ctx != nil {
+		if s, ok := w.specFuncs[ctx.Path()+"::"+name]; ok {
+			return s, w.specFuncPkg[ctx.Path()+"::"+name]
+		}
+	}
+	var found *SpecFunc
+	var fp *types.Package
+	n := 0
+	for k, s := range w.specFuncs {
+		if strings.HasSuffix(k, "::"+name) {
+			found, fp = s, w.specFuncPkg[k]
+			n++
+		}
+	}
+	if n == 1 {
+		return found, fp
+	}
+	return nil, nil
 }
